@@ -666,6 +666,10 @@ def f32_samples(ctx):
     for i in range(0, 1000):
         yield rne(i, 0, F32)[0]
         yield rne(i, -1, F32)[0]
+    # f32 values whose shortest decimal's nearest f64 lies EXACTLY on an f32 midpoint (parsing as f64 and narrowing rounds the wrong way): 7.038531e-26
+    yield 0x15ae43fd
+    yield 0x15ae43fe
+    yield 0x15ae43fc
 
 def judge_roundtrip(ctx, cfg, bit_list, fmt):
     v = []
